@@ -24,12 +24,16 @@ var c11States = []string{"idle", "idle-after-requests", "partial-frame", "tls-no
 	"not-reading-then-unbind", // asks for a huge answer, never reads it, sends Unbind: the read loop has ended, a handler is parked in Write
 	"starttls-stalled",        // asks for a huge answer AND StartTLS, never reads: a handshake is pending behind a parked writer
 	"starttls-no-hello",       // got the StartTLS response but never starts the handshake
+	"not-reading-pipelined",   // pipelines five requests with large answers and never reads: several handlers queue on the connection's writer
 }
 
 type c11Scenario struct {
 	States     []string `json:"states"`
 	SecondStop bool     `json:"second_stop"`
 	Cut        int      `json:"cut"` // partial frame / hello: bytes sent
+	// Timeouts: the server is configured WithReadTimeout / WithWriteTimeout of
+	// one hour (deadlines far in the future must not keep Stop from returning)
+	Timeouts bool `json:"timeouts,omitempty"`
 }
 
 func c11NeedsTLS(s string) bool { return strings.HasPrefix(s, "tls-") }
@@ -50,7 +54,7 @@ func c11Run(index int, raw json.RawMessage) lab.WorkerResult {
 	h := func(w *gldap.ResponseWriter, r *gldap.Request) {
 		_, id, _ := gldap.VerifMessageInfo(r)
 		atomic.AddInt64(&entered, 1)
-		if int(id%tagStride) == 500 { // the not-reading client's request: a large answer
+		if n := int(id % tagStride); n >= 500 && n <= 520 && n != 501 && n != 502 { // the not-reading client's requests: large answers
 			for i := 0; i < 400; i++ {
 				e := r.NewSearchResponseEntry("cn=x")
 				e.AddAttribute("p", []string{big})
@@ -74,12 +78,12 @@ func c11Run(index int, raw json.RawMessage) lab.WorkerResult {
 		}
 	}
 	if needPlain {
-		if plain, err = lab.StartServer(mux, lab.ServerOpts{}); err != nil {
+		if plain, err = lab.StartServer(mux, timeoutOpts(lab.ServerOpts{}, s.Timeouts)); err != nil {
 			return lab.WorkerResult{Skipped: err.Error()}
 		}
 	}
 	if needTLS {
-		if tlsSrv, err = lab.StartServer(mux, lab.ServerOpts{TLS: main.ServerTLS()}); err != nil {
+		if tlsSrv, err = lab.StartServer(mux, timeoutOpts(lab.ServerOpts{TLS: main.ServerTLS()}, s.Timeouts)); err != nil {
 			return lab.WorkerResult{Skipped: err.Error()}
 		}
 	}
@@ -171,6 +175,12 @@ func c11Run(index int, raw json.RawMessage) lab.WorkerResult {
 			}()
 		case "not-reading":
 			_, _ = raw.Write(simpleReq("search", base+500).Bytes())
+		case "not-reading-pipelined":
+			var buf []byte
+			for j := 0; j < 5; j++ {
+				buf = append(buf, simpleReq("search", base+510+int64(j)).Bytes()...)
+			}
+			_, _ = raw.Write(buf)
 		case "not-reading-then-unbind":
 			_, _ = raw.Write(append(simpleReq("search", base+500).Bytes(), simpleReq("unbind", base+501).Bytes()...))
 		case "starttls-stalled":
@@ -230,7 +240,7 @@ func c11Run(index int, raw json.RawMessage) lab.WorkerResult {
 	}
 	states := append([]string{}, s.States...)
 	sort.Strings(states)
-	desc := fmt.Sprintf("connections at Stop time: %v, concurrent second Stop: %v", states, s.SecondStop)
+	desc := fmt.Sprintf("connections at Stop time: %v, concurrent second Stop: %v, one-hour read/write timeouts configured: %v", states, s.SecondStop, s.Timeouts)
 	if timedOut {
 		stable, dump := lab.StableCensus(500 * time.Millisecond)
 		uniq := map[string]bool{}
@@ -308,6 +318,14 @@ func c11Run(index int, raw json.RawMessage) lab.WorkerResult {
 	return lab.WorkerResult{OK: true, Delivered: len(s.States) > 0}
 }
 
+func timeoutOpts(o lab.ServerOpts, on bool) lab.ServerOpts {
+	if on {
+		o.ReadTimeout = time.Hour
+		o.WriteTimeout = time.Hour
+	}
+	return o
+}
+
 type c11Batch struct {
 	Scenarios []c11Scenario `json:"scenarios"`
 }
@@ -331,7 +349,7 @@ func c11Exec(c c11Batch, st *lab.Stats) *lab.Fail {
 			st.Inconclusive(fmt.Sprintf("scenario %+v skipped: %s", s, r.Skipped))
 			continue
 		}
-		cls := []string{fmt.Sprintf("conns<=%d", bucket(len(s.States))), fmt.Sprintf("second-stop=%v", s.SecondStop)}
+		cls := []string{fmt.Sprintf("conns<=%d", bucket(len(s.States))), fmt.Sprintf("second-stop=%v", s.SecondStop), fmt.Sprintf("timeouts=%v", s.Timeouts)}
 		for _, x := range s.States {
 			cls = append(cls, "state="+x)
 		}
@@ -360,7 +378,7 @@ func c11Exec(c c11Batch, st *lab.Stats) *lab.Fail {
 func TestC11Enum(t *testing.T) {
 	lab.SkipIfReplayOther(t, "enum")
 	st := lab.GetStats("C11", "enum")
-	st.SetRule("complete enumeration: no connection, every single connection state of {idle, idle after served requests, first k bytes of a frame sent, TCP connected to a TLS listener without / with a partial ClientHello, idle inside a TLS session, pipelining requests as fast as it can, requesting a 13 MB answer and never reading, the same followed by an Unbind, the same together with a StartTLS request, StartTLS answered but handshake never started} and every unordered pair of states, each with and without a concurrent second Stop; clients never close by themselves; executed in worker child processes; oracle = Stop returns and Run returns nil within 5 s (a correct server needs milliseconds), a miss counts only with two identical goroutine censuses 0.5 s apart; non-trivial = >= 1 connection open at Stop; distinct by scenario")
+	st.SetRule("complete enumeration: no connection, every single connection state of {idle, idle after served requests, first k bytes of a frame sent, TCP connected to a TLS listener without / with a partial ClientHello, idle inside a TLS session, pipelining requests as fast as it can, requesting a 13 MB answer and never reading, the same followed by an Unbind, the same together with a StartTLS request, StartTLS answered but handshake never started} and every unordered pair of states, each with and without a concurrent second Stop, single states also with one-hour read/write timeouts configured on the server; clients never close by themselves; executed in worker child processes; oracle = Stop returns and Run returns nil within 5 s (a correct server needs milliseconds), a miss counts only with two identical goroutine censuses 0.5 s apart; non-trivial = >= 1 connection open at Stop; distinct by scenario")
 	defer lab.FlushAll()
 	if lab.ReplayInto(t, st, "enum", c11Exec) {
 		return
@@ -368,7 +386,7 @@ func TestC11Enum(t *testing.T) {
 	var all []c11Scenario
 	all = append(all, c11Scenario{}, c11Scenario{SecondStop: true})
 	for i, a := range c11States {
-		all = append(all, c11Scenario{States: []string{a}, Cut: 7}, c11Scenario{States: []string{a}, SecondStop: true, Cut: 20})
+		all = append(all, c11Scenario{States: []string{a}, Cut: 7}, c11Scenario{States: []string{a}, SecondStop: true, Cut: 20}, c11Scenario{States: []string{a}, Cut: 9, Timeouts: true})
 		for _, b := range c11States[i:] {
 			all = append(all, c11Scenario{States: []string{a, b}, Cut: 11})
 		}
@@ -394,7 +412,7 @@ func TestC11Random(t *testing.T) {
 			var b c11Batch
 			n := rapid.IntRange(3, 6).Draw(t, "n")
 			for i := 0; i < n; i++ {
-				s := c11Scenario{SecondStop: rapid.Bool().Draw(t, "second"), Cut: rapid.IntRange(1, 400).Draw(t, "cut")}
+				s := c11Scenario{SecondStop: rapid.Bool().Draw(t, "second"), Cut: rapid.IntRange(1, 400).Draw(t, "cut"), Timeouts: rapid.IntRange(0, 2).Draw(t, "timeouts") == 0}
 				k := rapid.IntRange(0, 16).Draw(t, "nconns")
 				s.States = rapid.SliceOfN(rapid.SampledFrom(c11States), k, k).Draw(t, "states")
 				b.Scenarios = append(b.Scenarios, s)
